@@ -296,4 +296,7 @@ def poly_rules(ctx, rule):
         okp = any(cfg2.dominates(h, b) and h in cfg2.reachable_from(b) for h in cfg2.loop_heads())
     ctx.add(rule, root2 + "#one-polynomial-per-chunk", okp,
             "dealer_rng must build one random_polynomial(element, threshold, rng) per secret chunk inside its chunk loop", at2)
-    ctx.floor(rule, 5)
+    # the degree is the declared threshold - 1 only if ADSS hands Sharks the access structure's threshold as it is
+    from .c16 import threshold_unmodified
+    threshold_unmodified(ctx, rule, ("adss::Commune::share",))
+    ctx.floor(rule, 6)
